@@ -293,7 +293,21 @@ RULE = ("Real kvarn::handle_connection on loopback TCP pairs, TLS by a rustls Se
         "(4) proto.sbody: extensions::stream_body() in process on files and Ranges (inside, across, at and beyond the end): bytes written, "
         "length announced, status and content-range against stream_plan / stream_head, and against an oracle written in Python (the "
         "requested part of the file, length = bytes written, 206 + content-range: bytes first-last/length for a Range, 200 without; "
-        "416 exactly when the Range starts at or after the end). A failure of an exchange that is a time-out or a connection that cannot be opened "
+        "416 exactly when the Range starts at or after the end). (5) REQUEST HEADS: requests with 100 - 1000 small header fields "
+        "(`x-fNNNN: v`: 1 - 12 kB as an HTTP/1 head, 4 - 42 kB as an HTTP/2 header list, where every field counts name + value + 32) and with "
+        "a few very long values, up to an HTTP/1 head of exactly 16384 bytes, are part of the histories of (1) (a directed history, run "
+        "cached and uncached, and ~6 % of the random requests; GET / HEAD / POST with a body, pages, files, 404, streamed); "
+        "proto.head: one request to a page that answers 200 over a fresh HTTP/1.1 (TLS) and a fresh HTTP/2 connection - 0 .. 2500 "
+        "small fields, heads of 16383 / 16384 / 16385 / 16391 / 20000 bytes made of one long value or of 1200 fields, random ones - "
+        "against the model of the two front ends (HTTP/1: answered iff the head is at most 16384 bytes, else the connection is ended "
+        "without an answer; HTTP/2: answered, the header list staying below h2's default limit) and the specification (a request the "
+        "HTTP/1 front end answers is answered the same over HTTP/2; 'not answered' counts only if a second run agrees). "
+        "THE END OF AN HTTP/1.1 CONNECTION: the client records HOW a connection ended after `connection: close` - over TLS orderly = "
+        "the close_notify alert arrived before the end of the TCP stream (rustls reports its absence), over plain TCP = FIN, not a "
+        "reset. A body that only the end of the connection delimits (no content-length, not HEAD) counts as received only after an "
+        "orderly end - what a strict client does, as an end without close_notify cannot be told from a truncation -, otherwise the "
+        "exchange fails with 'body not cleanly terminated' (an outcome when three runs agree: VIOLATION); an unclean end after an answer "
+        "that is complete without it is the wire tag 6, which the model never predicts. A failure of an exchange that is a time-out or a connection that cannot be opened "
         "is never an outcome (the case is run again, then counted as not executed); any other failure is an outcome only when it repeats "
         "identically on three runs with fresh hosts. distinct_nontrivial = distinct (input, sequence of (status, cache/encoding class)) pairs")
 ASSUMPTIONS = [
@@ -318,7 +332,9 @@ ASSUMPTIONS = [
     "connection (pair_history_answered; close_delimited_not_last_refuted shows what follows it is not answered on that connection "
     "while the HTTP/2 connection goes on - the client has to open another connection: a difference of connections, not of answers); "
     "the client's view of such an answer (body = everything up to the end of the connection, which the server brings about itself) is "
-    "part of receive",
+    "part of receive; and the body is complete only if that end is an orderly one (receive_end: over TLS the close_notify alert of "
+    "HttpConnection::shutdown - RFC 8446 6.1, what hyper / curl require; over plain TCP the FIN) - "
+    "close_delimited_complete_iff_close_notify; the harness's client reports how the connection ended",
     "the names of the vary rules of a request's path (the 416 page advertises them, repair 21f0154) are the host's configuration: an "
     "input of model and specification, taken from the generator's own host description",
     "stream_independence: the handler contract of C03 (response a function of method class, path, vary tuple and - for "
@@ -332,7 +348,12 @@ ASSUMPTIONS = [
     "(the harness gives compression_options_oneshot = compression_options_cached); which bytes a compressor emits is external: "
     "the layer-4 response is observed, not predicted",
     "requests both protocols can express: lower-case header names, no host/connection/keep-alive/transfer-encoding/upgrade/te "
-    "request headers, origin-form target, a request body announced by content-length on both protocols and sent completely; no "
+    "request headers, origin-form target, a request body announced by content-length on both protocols and sent completely; a "
+    "request HEAD both front ends accept: at most 16384 bytes as an HTTP/1 head (request line, `host`, field lines, blank line - "
+    "kvarn ends the connection without an answer beyond that: h1_head_ok, observed by proto.head) - head_accepted_by_both proves "
+    "that the HTTP/2 front end (h2's header-list accounting, limit 16 MiB, and its 24576-field cap) then accepts it too, so this is "
+    "the only head limit in the domain; requests beyond it (answered over HTTP/2 only) are outside the property's quantifier and "
+    "are exercised against the model only; no "
     "HTTP/2 server push, HTTP/3 not exercised (UDP/QUIC); the 409 answer for an unknown host is modelled (send_direct) but not "
     "exercised (every request reaches the one host)",
     "request bodies only with methods whose content-length kvarn's HTTP/1 reader honours (utils::get_body_length_request returns 0 "
@@ -355,7 +376,11 @@ ASSUMPTIONS = [
     "over it)",
 ]
 TRUSTED = [
-    "modelled (Model/Protocols.v): src/lib.rs handle_connection (alt-svc append, per-request task for HTTP/2, the HTTP/1 request loop "
+    "modelled (Model/Protocols.v): src/lib.rs handle_connection (alt-svc append, per-request task for HTTP/2, the way the HTTP/1 request "
+    "loop is left - break, then HttpConnection::shutdown: close_notify on TLS; shutdown = false is the variant that returns instead -, "
+    "the request-head limits of the two front ends: HttpConnection::accept's 16 * 1024 for kvarn_async::read::request and - h2 0.4 "
+    "frame/headers.rs load_hpack, transcribed - name + value + 32 per field against h2's default header-list limit, which "
+    "HttpConnection::new leaves in place; the HTTP/1 request loop "
     "with the fate of a request body: Http1Body::new's early bytes, read_to_bytes(l) taking min(declared, l), Http1Body::drain of "
     "fix dfe4d54 - and the loop before that fix as the variant drain = false; the limiter's 429 / the 409 answer: send_direct), "
     "SendKind::send as merged on /repo main (the body of a 1xx/204/304 dropped: 89e2956; range application - not to a 304: 9ae9b1a - "
@@ -371,7 +396,8 @@ TRUSTED = [
     "416 page; extensions::stream_body's range arithmetic, status and content-range (stream_plan / stream_head; fix d675f8a, "
     "clamp = false is the code before); "
     "h2 0.4 proto/streams/send.rs check_headers (the only h2 logic transcribed)",
-    "NOT modelled, exercised only: rustls (handshake, records, ALPN selection), h2 (HPACK, flow control incl. the WINDOW_UPDATEs "
+    "NOT modelled, exercised only: rustls (handshake, records, ALPN selection, the close_notify alert itself and its detection by the "
+    "client's rustls), h2 (HPACK, flow control incl. the WINDOW_UPDATEs "
     "Body::read_to_bytes releases, the windows a 1 MiB / streamed 81 kB answer needs, and the RST_STREAM(NO_ERROR) after an answer "
     "whose request body was not read, frame scheduling and the splitting of send_data into frames, stream state machine, RST_STREAM "
     "from the client, the client-side content-length check), tokio task scheduling (multi-thread runtime, 3 workers), moka; "
@@ -380,14 +406,15 @@ TRUSTED = [
     "layer 4 (handle_cache and below) is C03's model in the theorems and an OBSERVATION of the real handle_cache on an identical "
     "fresh host in the correspondence (proto.l4: response, sanitize class, what the response's future writes and the overridden "
     "length); the twin hosts are deterministic functions of the configuration",
-    "harness/src/c20.rs: raw HTTP/1.1 client (strict status line / header / content-length framing, sentinel request), h2 client "
+    "harness/src/c20.rs: raw HTTP/1.1 client (strict status line / header / content-length framing, sentinel request; how a connection "
+    "ended is taken from tokio-rustls: read = 0 only after close_notify, an error otherwise), h2 client "
     "driver, rcgen certificate, Package / H_slow / echo / echon / echo2 / stream / read-body extensions; header multisets are sorted "
     "before comparison, the value of last-modified is masked; the echo handlers echo what read_to_bytes returned UNCUT on a "
     "connection (only the in-memory Body::Bytes of the layer-4 probe, which ignores the limit and is neither protocol, is cut to "
     "the limit: that yields the specification 'the first l bytes'); the classification of failures into harness trouble / outcome "
     "(is_trouble, three agreeing runs)",
 ]
-LEVEL_TEXT = ("partial. Machine-checked Coq theorems (30, statements pinned) over an executable model of the protocol-dependent path above "
+LEVEL_TEXT = ("partial. Machine-checked Coq theorems (35, statements pinned) over an executable model of the protocol-dependent path above "
               "the shared layer 4 of C03: protocol_parity / send_parity (for every host configuration, cache state, request, layer-4 "
               "response, TLS or plain HTTP/1 connection and oblivious Package chain the HTTP/1.1 and HTTP/2 answers are equal after "
               "dropping the version and exactly the headers connection, keep-alive, proxy-connection, transfer-encoding, upgrade, te, "
@@ -419,8 +446,19 @@ LEVEL_TEXT = ("partial. Machine-checked Coq theorems (30, statements pinned) ove
               "first l bytes on both protocols; read_to_bytes_resumes: with the repaired Http1Body a reader that took part of the "
               "body through AsyncRead gets the bytes that follow), pair_history_answered (the executable history model of the "
               "correspondence - ordinary, streamed, unknown-length and limiter-answered exchanges - equals its specification on "
-              "every input of the domain in which at most the last answer ends the HTTP/1 connection); and "
-              "seven witnesses: close_delimited_not_last_refuted (after a streamed answer of unknown length the HTTP/1 connection "
+              "every input of the domain in which at most the last answer ends the HTTP/1 connection); THE END OF THE CONNECTION: "
+              "close_delimited_complete_iff_close_notify (an answer whose body only the end of the HTTP/1 connection delimits is "
+              "complete iff that end is orderly - over TLS iff handle_connection shut the connection down, i.e. close_notify was "
+              "sent; every other answer is complete whatever the end) and connection_end_keeps_histories (with the shutdown the "
+              "code performs after leaving the request loop by break - and on plain TCP in any case - the history model with the "
+              "connection end in it, which is what the correspondence runs, IS the one of the history theorems); REQUEST HEADS: "
+              "head_accepted_by_both (every request head the HTTP/1 front end accepts - at most 16384 bytes - is below any HTTP/2 "
+              "header-list limit above 128 KiB, in particular h2's default 16 MiB which kvarn leaves in place, and has at most 4096 "
+              "fields: no request is answered over HTTP/1.1 and refused 431 over HTTP/2); and "
+              "nine witnesses: close_without_notify_refuted (leaving the request loop by return instead of break: the streamed answer "
+              "of unknown length is complete over HTTP/2 and plain HTTP/1.1 and cannot be told from a truncated one over TLS), "
+              "small_header_list_limit_refuted (16 KiB as HTTP/2 header-list limit is not 'the same limit' as the 16 KiB HTTP/1 head: "
+              "450 small fields, a head of 4.5 kB, are answered 200 over HTTP/1.1 and 431 over HTTP/2), close_delimited_not_last_refuted (after a streamed answer of unknown length the HTTP/1 connection "
               "answers nothing more, the HTTP/2 one does: the client opens another connection; each answer is the same), head_end_of_stream_refuted (why the head must not carry END_STREAM when Response::body is empty), "
               "unread_request_body_v0_refuted (the loop before fix dfe4d54), head_stream_v0_refuted (before fix "
               "d63bba7 a HEAD for a streamed response got the streamed bytes: broken framing on both protocols), "
@@ -430,7 +468,9 @@ LEVEL_TEXT = ("partial. Machine-checked Coq theorems (30, statements pinned) ove
               "client (full wire answers vs. the extracted model, parity and specification oracles; streamed responses, every "
               "connection-header subset, limiter answers, 64 KiB / 1 MiB compressed bodies, cached and uncached; bursts of up to 100 "
               "streams with seeded handler delays, cancelled streams and two connections vs. each request alone; histories with "
-              "unread / partly read / large request bodies; what read_to_bytes returns per protocol). NOT proved, only exercised "
+              "unread / partly read / large request bodies; what read_to_bytes returns per protocol; requests with up to 1200 "
+              "header fields and heads of exactly 16384 bytes through both protocols, the two front ends at and beyond the HTTP/1 "
+              "head limit; how every HTTP/1.1 connection that the server ends is ended - close_notify or not). NOT proved, only exercised "
               "by that run: everything inside the h2 and rustls crates - HPACK, flow control, frame splitting and scheduling, stream "
               "state machine, RST_STREAM handling, TLS and ALPN - and the tokio scheduler; the concurrency theorem is about "
               "sequentially consistent interleavings of two atomic blocks per task. Two kvarn defects found by this round were "
@@ -445,7 +485,9 @@ LEVEL_TEXT = ("partial. Machine-checked Coq theorems (30, statements pinned) ove
 LEVEL_NOTE = ("Trusted: Coq kernel; extraction (sample re-checked in-kernel); the hand transcription of SendKind::send / ResponsePipe / "
               "ResponseBodyPipe / Body::read_to_bytes / handle_connection's request loop / stream_body's range arithmetic into "
               "Model/Protocols.v and of the clients' framing into receive, as validated by the differential run; h2 and rustls as "
-              "black boxes; layer 4 and stream futures observed on a twin host; request bodies only where kvarn's HTTP/1 reader "
+              "black boxes (of h2 only check_headers and the header-list accounting of load_hpack are transcribed; that rustls's close_notify "
+              "is what HttpConnection::shutdown sends and what the client detects is observed, not modelled); layer 4 and stream "
+              "futures observed on a twin host; request heads of at most 16384 bytes; request bodies only where kvarn's HTTP/1 reader "
               "honours content-length (not GET/HEAD/OPTIONS), first read_to_bytes call only. No axioms.")
 TECHNIQUE = ("Coq proof (equality up to an explicit header filter; a small-step model of the response pipe with the client's framing; "
              "inductive invariant over all schedules, reusing C03's simulation; induction over DATA frames) + differential "
